@@ -92,6 +92,7 @@ Qed.
    engine measured at p (its own force + everything Colvars applied), the ABF force of p, f_old of the
    variables with subtractAppliedForce, and the Jacobian force of p *)
 Definition link (c : @abf_cfg R) (s : @abf_state R) (p : @abf_in R * @abf_out R) : Prop :=
+  s_tfok s = true /\
   s_started s = true /\
   s_fbin s = bins Rops c (i_x (fst p)) /\
   (forall k, (k < c_nd c)%nat ->
@@ -113,8 +114,8 @@ Qed.
 
 Lemma link_step c s i : link c (fst (abf_step Rops c s i)) (i, snd (abf_step Rops c s i)).
 Proof.
-  unfold abf_step, link. cbn [fst snd s_started s_fbin s_eng s_fprev s_fold s_fj s_japp o_f o_fapp].
-  split; [reflexivity|]. split; [reflexivity|]. split; [|split; [|split; [|split; [|split]]]].
+  unfold abf_step, link. cbn [fst snd s_started s_fbin s_eng s_fprev s_fold s_fj s_japp s_tfok o_f o_fapp].
+  split; [reflexivity|]. split; [reflexivity|]. split; [reflexivity|]. split; [|split; [|split; [|split; [|split]]]].
   - intros k Hk. unfold st_eng. rewrite vget_vbuild by exact Hk. cbn [fst]. destruct (cvapply c i k); reflexivity.
   - intros k Hk. reflexivity.
   - intros k Hk Hs. unfold st_fold. rewrite vget_vbuild by exact Hk. rewrite Hs. reflexivity.
@@ -136,11 +137,11 @@ Lemma sysf_lag c s i p k :
   link c s p -> (k < c_nd c)%nat ->
   vget Rops (st_sysf Rops c s i) k = vget Rops (sample_force Rops c p) k.
 Proof.
-  intros Hsame Hupd Hrel (Hst & Hfb & Heng & Hfapp & Hfold & Hfj & Hjapp & Hnoapp) Hk.
+  intros Hsame Hupd Hrel (Htf & Hst & Hfb & Heng & Hfapp & Hfold & Hfj & Hjapp & Hnoapp) Hk.
   unfold st_sysf. rewrite vget_vbuild by exact Hk.
   unfold st_ft. rewrite Hsame. rewrite vget_vbuild by exact Hk.
   unfold st_ft0. rewrite vget_vbuild by exact Hk.
-  rewrite Hupd, Hsame, Hrel. cbn [orb]. rewrite (Heng k Hk), (Hfj k Hk).
+  rewrite Hupd, Hsame, Hrel, Htf. cbn [orb andb]. rewrite (Heng k Hk), (Hfj k Hk).
   unfold sample_force. rewrite vget_vbuild by exact Hk.
   unfold measured, own, jac, addj. rewrite Hsame. rewrite (Hjapp k Hk).
   destruct (c_hidej c) eqn:Hh; destruct (cvapply c (fst p) k) eqn:Hcv;
@@ -154,8 +155,8 @@ Lemma doacc_lag c s i p :
   c_same_step c = false -> c_szd c = false -> link c s p ->
   st_doacc Rops c s i = eligible c (st_clk s i) && index_ok c (bins Rops c (i_x (fst p))).
 Proof.
-  intros Hsame Hszd (Hst & Hfb & _).
-  unfold st_doacc, st_fbin, eligible. rewrite Hsame, Hszd, Hfb.
+  intros Hsame Hszd (Htf & Hst & Hfb & _).
+  unfold st_doacc, st_fbin, eligible. rewrite Hsame, Hszd, Hfb, Htf.
   destruct (0 <? fst (st_clk s i))%Z; destruct (snd (st_clk s i)); destruct (c_update c);
     destruct (index_ok c (bins Rops c (i_x (fst p)))); reflexivity.
 Qed.
@@ -174,7 +175,7 @@ Proof.
   unfold st_cnt, st_sum. rewrite (doacc_lag c s i p Hsame Hszd Hl).
   destruct (eligible c (st_clk s i) && index_ok c (bins Rops c (i_x (fst p)))) eqn:E.
   - assert (Hfb : st_fbin Rops c s i = bins Rops c (i_x (fst p))).
-    { unfold st_fbin. rewrite Hsame. destruct Hl as (_ & Hfb & _). exact Hfb. }
+    { unfold st_fbin. rewrite Hsame. destruct Hl as (_ & _ & Hfb & _). exact Hfb. }
     rewrite Hfb. rewrite cnt_of_one. split.
     + destruct (idx_eqb b (bins Rops c (i_x (fst p)))); lia.
     + intros k Hk. rewrite fsum_of_one.
@@ -282,14 +283,15 @@ Local Notation trace_from := (trace_from Rops).
    through inputPrefix or a state file, at the start of the run (no step made) or defined while the simulation is
    running (force_bin still outside of the grid) *)
 Definition fresh (c : @abf_cfg R) (s : @abf_state R) : Prop :=
-  (s_started s = false /\ s_rel s = 0%Z) \/ index_ok c (s_fbin s) = false.
+  (s_started s = false /\ s_rel s = 0%Z) \/ index_ok c (s_fbin s) = false \/ s_tfok s = false.
 
 Lemma first_step_lag c s i :
   fresh c s -> c_szd c = false -> c_same_step c = false -> st_doacc Rops c s i = false.
 Proof.
-  intros [[Hst Hrel]|Hfb] Hszd Hsame.
+  intros [[Hst Hrel]|[Hfb|Htf]] Hszd Hsame.
   - unfold st_doacc, st_clk, clock. rewrite Hst, Hrel. cbn [fst snd]. rewrite Hszd. cbn. reflexivity.
   - unfold st_doacc, st_fbin. rewrite Hsame, Hfb. apply andb_false_r.
+  - unfold st_doacc. rewrite Hsame, Htf. cbn [orb]. rewrite andb_false_r. reflexivity.
 Qed.
 
 
@@ -914,7 +916,7 @@ Proof.
 Qed.
 
 Lemma fresh_init_late (c : @abf_cfg R) rel : (0 < c_nd c)%nat -> fresh c (abf_init_late Rops c rel).
-Proof. intros H. right. unfold abf_init_late. cbn [s_fbin]. apply index_ok_minus1. exact H. Qed.
+Proof. intros H. right. left. unfold abf_init_late. cbn [s_fbin]. apply index_ok_minus1. exact H. Qed.
 
 (* T1 for a bias defined after the engine has made steps (the last one with step_relative = rel): the grids are
    the samples attributed in its own history; nothing of what happened before it existed enters a bin *)
@@ -935,36 +937,37 @@ Qed.
 
 (* ---------------------------------------------------------------- T1 across a reload into the running instance *)
 
-Lemma link_set_grids c s p d rel : link c s p -> link c (abf_set_grids Rops c s d rel) p.
-Proof. intros H. exact H. Qed.
+Lemma fresh_reload c s d : fresh c (abf_set_grids Rops c s d 0).
+Proof. right. right. reflexivity. Qed.
 
-(* The state file is loaded into the instance that is running, after the step i0 (made from any state s): the grids
-   become the data set d, and from then on they receive the samples delivered after the load: in the lagged
-   convention the first of them is the force of step i0 itself (exerted before the load, delivered after it, attributed
-   to the bin of i0); with same-step forces the samples of the steps h. *)
-Theorem abf_state_after_reload c s i0 d h b :
+(* The state file is loaded into the instance that is running, in ANY state s: the grids become the data set d and
+   from then on receive the samples attributed in the steps h made after the load, exactly as after a restart into a
+   new instance: in the lagged convention the force exerted at the last step before the load belongs to the replaced
+   history and is dropped (the variables do not collect a total force at the first step after a state was read). *)
+Theorem abf_state_after_reload c s d h b :
   wf_cfg c ->
-  let so := abf_step Rops c s i0 in
-  let s' := abf_set_grids Rops c (fst so) d 0 in
-  let p := (i0, snd so) in
+  let s' := abf_set_grids Rops c s d 0 in
   let r := abf_run_from Rops c s' h in
-  let tr := ABFModel.trace_from Rops c s' h in
-  let A := attributed_of c (if c_same_step c then deliveries_same Rops c tr else deliveries_lag Rops c (Some p) tr) in
-  s_cnt (fst r) b = (fst d b + cnt_of b A)%Z /\
-  forall k, (k < c_nd c)%nat -> vget Rops (s_sum (fst r) b) k = vget Rops (snd d b) k * IZR (fst d b) - fsum_of k b A.
+  let S := attributed Rops c (ABFModel.trace_from Rops c s' h) in
+  s_cnt (fst r) b = (fst d b + cnt_of b S)%Z /\
+  forall k, (k < c_nd c)%nat -> vget Rops (s_sum (fst r) b) k = vget Rops (snd d b) k * IZR (fst d b) - fsum_of k b S.
 Proof.
-  intros Hwf. cbn zeta. unfold ABFModel.trace_from.
-  destruct (c_same_step c) eqn:Hsame.
-  - pose proof (run_same c Hsame h (abf_set_grids Rops c (fst (abf_step Rops c s i0)) d 0) b) as H. cbn zeta in H.
-    destruct H as [Hc Hs]. split.
-    + rewrite Hc. reflexivity.
-    + intros k Hk. rewrite (Hs k Hk). unfold abf_set_grids. cbn [s_sum]. rewrite vget_vbuild by exact Hk. reflexivity.
-  - assert (Hszd : c_szd c = false).
-    { destruct (c_szd c) eqn:E; [|reflexivity]. unfold wf_cfg in Hwf. specialize (Hwf E). congruence. }
-    pose proof (link_set_grids c _ _ d 0%Z (link_step c s i0)) as Hl.
-    pose proof (run_lag c Hsame Hszd h _ _ Hl b) as H. cbn zeta in H. destruct H as [Hc Hs]. split.
-    + rewrite Hc. reflexivity.
-    + intros k Hk. rewrite (Hs k Hk). unfold abf_set_grids. cbn [s_sum]. rewrite vget_vbuild by exact Hk. reflexivity.
+  intros Hwf. cbn zeta.
+  pose proof (run_from_fresh c (abf_set_grids Rops c s d 0) h b Hwf (fresh_reload c s d)) as H. cbn zeta in H.
+  destruct H as [Hc Hs]. split.
+  - rewrite Hc. reflexivity.
+  - intros k Hk. rewrite (Hs k Hk). unfold abf_set_grids. cbn [s_sum]. rewrite vget_vbuild by exact Hk. reflexivity.
+Qed.
+
+(* and no sample at all is taken at the first step after the load, in the lagged convention *)
+Theorem no_sample_right_after_reload c s d i :
+  c_same_step c = false ->
+  s_cnt (fst (abf_step Rops c (abf_set_grids Rops c s d 0) i)) = fst d.
+Proof.
+  intros Hsame. unfold abf_step. cbn [fst s_cnt]. unfold st_cnt.
+  assert (Hd : st_doacc Rops c (abf_set_grids Rops c s d 0) i = false).
+  { unfold st_doacc. rewrite Hsame. unfold abf_set_grids at 3. cbn [s_tfok orb]. rewrite andb_false_r. reflexivity. }
+  rewrite Hd. reflexivity.
 Qed.
 
 (* ---------------------------------------------------------------- timeStepFactor (same-step total forces) *)
